@@ -4,8 +4,10 @@
       [create file ; close file] ; BEGIN ; body ; [early removals] ; COMMIT | ROLLBACK ; removals ;
       [read fetched file ; remove it] ; return
 
-   every lock-free lookup an instance of  SELECT ; [open file] ; return,  and killing a client is a
-   step available in every configuration.  The machine is generic in the database state D and in the
+   every lock-free lookup an instance of  SELECT ; [open file ; [SELECT again ; [open file ; ...]]] ; return
+   (a lookup whose file is gone looks the row up again and gives up only when the row is gone or the SAME file
+   is missing twice; `r_again = false` is the reader the code had before that repair: it gave up at the first
+   missing file),  and killing a client is a step available in every configuration.  The machine is generic in the database state D and in the
    transaction bodies: a call only chooses the parameters (does it write a value file, does it retry,
    what its body does to the working copy, which files it hands to cleanup, which file it fetches after
    commit).  model/Txn.v instantiates it with the bodies of model/Cache.v.
@@ -36,10 +38,12 @@ Section Conc.
     w_body : D -> option Z -> body_out
   }.
 
-  (* a lock-free lookup: the single SELECT on the committed state yields a miss, an inline hit, or a
-     file-backed hit that still has to open the file *)
+  (* a lock-free lookup: a SELECT on the committed state yields a miss, an inline hit, or a file-backed hit
+     that still has to open the file.  r_again: when the open fails the lookup SELECTs again (unless the file
+     it could not open is the one that was already missing the time before); false = the OLD reader, which
+     reported `miss` at the first failed open *)
   Inductive sel := SelMiss (r : R) | SelHit (r : R) | SelFile (f : Z) (hit miss : R).
-  Record rop := { r_select : D -> sel }.
+  Record rop := { r_select : D -> sel; r_again : bool }.
 
   Inductive op := OWrite (w : wop) | ORead (r : rop).
 
@@ -58,7 +62,10 @@ Section Conc.
   | Fetching (f : Z) (r : R)                          (* next: read the fetched file *)
   | FetchRm (f : Z) (res : outcome)                   (* next: remove it *)
   | TimeoutRm (f : option Z)                          (* lock not obtained: remove the stored file *)
-  | ReadOpen (f : Z) (hit miss : R)                   (* lookup after its SELECT: open the file *)
+  | ReadOpen (r : rop) (missing : option Z) (f : Z) (hit miss : R)
+                                                      (* lookup after a SELECT: open the file; missing = the file the
+                                                         open before could not find *)
+  | ReadAgain (r : rop) (missing : Z)                 (* the open failed: SELECT again *)
   | Dead.                                             (* killed *)
 
   Record client := { c_pc : pc; c_todo : list op; c_done : list outcome }.
@@ -86,6 +93,16 @@ Section Conc.
   Definition holds (c : config) (i : nat) : bool :=
     match lock c with Some (j, _) => Nat.eqb j i | None => false end.
 
+  Definition same_file (m : option Z) (f : Z) : bool := match m with Some g => g =? f | None => false end.
+
+  (* what a lookup does with the answer of a SELECT (x: the client with the call already taken off its program) *)
+  Definition after_select (c : config) (i : nat) (x : client) (r : rop) (missing : option Z) : config :=
+    match r_select r (db c) with
+    | SelMiss res => with_cl c i (finish x (ORes res))
+    | SelHit res => with_cl c i (finish x (ORes res))
+    | SelFile f hit miss => with_cl c i (set_pc x (ReadOpen r missing f hit miss))
+    end.
+
   (* one micro-step of client i; None = the client has nothing to do (finished or dead) *)
   Definition cstep (c : config) (i : nat) : option config :=
     let x := cl c i in
@@ -102,11 +119,7 @@ Section Conc.
             else Some (with_cl c i (set_pc x' (AtBegin w None)))
         | ORead r :: rest =>
             let x' := {| c_pc := Idle; c_todo := rest; c_done := c_done x |} in
-            match r_select r (db c) with
-            | SelMiss res => Some (with_cl c i (finish x' (ORes res)))
-            | SelHit res => Some (with_cl c i (finish x' (ORes res)))
-            | SelFile f hit miss => Some (with_cl c i (set_pc x' (ReadOpen f hit miss)))
-            end
+            Some (after_select c i x' r None)
         end
     | Storing w f =>
         Some {| db := db c; lock := lock c; files := upd_file c f FDone; supply := supply c;
@@ -153,8 +166,14 @@ Section Conc.
     | TimeoutRm (Some f) =>
         Some {| db := db c; lock := lock c; files := upd_file c f FNone; supply := supply c;
                 cl := upd_cl c i (finish x OTimeout); commits := commits c |}
-    | ReadOpen f hit miss =>
-        Some (with_cl c i (finish x (ORes (match files c f with FDone => hit | _ => miss end))))
+    | ReadOpen r missing f hit miss =>
+        match files c f with
+        | FDone => Some (with_cl c i (finish x (ORes hit)))
+        | _ => if r_again r && negb (same_file missing f)
+               then Some (with_cl c i (set_pc x (ReadAgain r f)))         (* look the row up again *)
+               else Some (with_cl c i (finish x (ORes miss)))             (* old reader, or the same file missing twice *)
+        end
+    | ReadAgain r missing => Some (after_select c i x r (Some missing))
     end.
 
   (* the process running client i is killed: its locals vanish; SQLite rolls back its open
@@ -200,7 +219,8 @@ Section Conc.
     | FetchRm _ _ => TRemove
     | TimeoutRm None => TReturn
     | TimeoutRm (Some _) => TRemove
-    | ReadOpen _ _ _ => TOpenRead
+    | ReadOpen _ _ _ _ _ => TOpenRead
+    | ReadAgain _ _ => TSelect
     end.
 End Conc.
 
@@ -216,3 +236,4 @@ Arguments Fetching {D R}.
 Arguments FetchRm {D R}.
 Arguments TimeoutRm {D R}.
 Arguments ReadOpen {D R}.
+Arguments ReadAgain {D R}.
